@@ -41,7 +41,7 @@ def target_dir(group):
 
 def _kani_cmd(group, extra):
     pkg = config.GROUPS[group]["package"]
-    return ["cargo", "kani", "-p", pkg, "--target-dir", target_dir(group)] + BASE_FLAGS + extra
+    return ["cargo", "kani", "-p", pkg] + config.GROUPS[group].get("cargo_args", []) + ["--target-dir", target_dir(group)] + BASE_FLAGS + extra
 
 
 def codegen(group, root):
@@ -177,7 +177,10 @@ _vec_re = re.compile(r"^\s*vec!\[([0-9,\s]*)\],?\s*$")
 
 def playback_values(group, root, h, tier):
     """re-run with concrete playback and return the list of byte vectors (one per kani::any call)"""
-    rec = run_harness(group, root, h, tier, extra=["-Z", "concrete-playback", "--concrete-playback=print"],
+    # trace generation needs more memory than the verdict run: twice the harness limit, at least 16 GB
+    mem, to = _limits(h, tier)
+    h2 = dict(h, mem_gb=max(2 * mem, 16), timeout=max(to, 1800))
+    rec = run_harness(group, root, h2, tier, extra=["-Z", "concrete-playback", "--concrete-playback=print"],
                       logname=h["name"] + ".playback")
     vals = []
     in_block = False
